@@ -2535,6 +2535,7 @@ Example x_optimized :
 Proof. vm_compute. reflexivity. Qed.
 
 (* ================================================================== Part 6: what the optimizer rejects *)
+Local Close Scope string_scope.
 (* constant integer expressions: the literal (static kind, value) the fold pass reduces them to *)
 Fixpoint cint (e : expr) : option (rkind * Z) :=
   match e with
@@ -2581,42 +2582,299 @@ Definition err_of (r : expr * acc) : option loc := snd (snd r).
 Lemma err_join a b : snd (join a b) = match snd b with Some l => Some l | None => snd a end.
 Proof. reflexivity. Qed.
 
+Fixpoint last_err (l : list (option loc)) : option loc :=
+  match l with [] => None | x :: r => match last_err r with Some e => Some e | None => x end end.
+
 Lemma map_post_list_err f l :
-  snd (snd (map_post_list f l)) = None <-> forall c, In c l -> err_of (map_post f c) = None.
+  snd (snd (map_post_list f l)) = last_err (map (fun c => err_of (map_post f c)) l).
 Proof.
-  induction l as [|x r IH]; cbn [map_post_list]; [split; [intros _ c []|reflexivity]|].
-  unfold err_of in *. destruct (map_post f x) as [x' a1]. destruct (map_post_list f r) as [r' a2]. cbn [snd] in *.
-  rewrite err_join. split.
-  - intros H c [<-|Hc]; destruct (snd a2) eqn:E2; try discriminate; [exact H|]. apply (proj1 IH eq_refl c Hc).
-  - intros H. assert (H2 : snd a2 = None) by (apply IH; intros c Hc; apply H; right; exact Hc). rewrite H2.
-    apply (H x). left; reflexivity.
+  induction l as [|x r IH]; [reflexivity|]. cbn [map_post_list map last_err]. rewrite <- IH. unfold err_of.
+  destruct (map_post f x) as [x' [b1 o1]]. destruct (map_post_list f r) as [r' [b2 o2]]. cbn [snd join]. reflexivity.
 Qed.
 
-Lemma map_post_err (vis : visitor) e :
-  err_of (map_post vis e) = None <->
-  (forall c, In c (children e) -> err_of (map_post vis c) = None) /\
-  err_of (vis (rebuild e (map (fun c => fst (map_post vis c)) (children e)))) = None.
+Lemma map_post_err_eq (vis : visitor) e :
+  err_of (map_post vis e) =
+  match err_of (vis (rebuild e (map (fun c => fst (map_post vis c)) (children e)))) with
+  | Some l => Some l
+  | None => last_err (map (fun c => err_of (map_post vis c)) (children e))
+  end.
 Proof.
   unfold err_of.
-  destruct e; cbn [map_post children map rebuild]; rewrite ?mp_list_eq;
-  try (split; [intros H; split; [intros c []|exact H]|intros [_ H]; exact H]);
-  try (destruct from as [fr|], to as [tt|]; cbn [opt_list app map rebuild]);
+  destruct e; try (destruct from as [fr|], to as [tt|]);
+  cbn [map_post children map rebuild last_err opt_list app]; rewrite ?mp_list_eq;
+  try (destruct (snd (snd (vis _))); reflexivity);
   repeat match goal with
        | |- context[map_post_list vis ?l] =>
            let H := fresh "HL" in let H' := fresh "HE" in
            pose proof (map_post_list_fst vis l) as H; pose proof (map_post_list_err vis l) as H';
-           destruct (map_post_list vis l) as [? ?]; cbn [fst snd] in H, H'; subst
-       | |- context[let '(_, _) := map_post vis ?x in _] => destruct (map_post vis x) as [? [? ?]] eqn:?; cbn [fst snd]
+           unfold err_of in H';
+           destruct (map_post_list vis l) as [? [? ?]]; cbn [fst snd] in H, H'; subst
+       | |- context[map_post vis ?x] => destruct (map_post vis x) as [? [? ?]]; cbn [fst snd]
+       end;
+  repeat match goal with
        | |- context[let '(_, _) := vis ?x in _] => destruct (vis x) as [? [? ?]]; cbn [fst snd]
-       end; cbn [join fst snd];
-  repeat match goal with |- context[match ?o with Some _ => _ | None => _ end] => destruct o end;
-  unfold err_of in *; cbn [snd] in *;
-  (split; [intros H; try discriminate; split; [|reflexivity]; intros c Hc; cbn in Hc;
-           repeat (destruct Hc as [<-|Hc]; [try reflexivity; try (unfold err_of; cbn; congruence)|]); try contradiction;
-           try (match goal with HE : _ <-> _ |- _ => apply (proj1 HE); [reflexivity|assumption] end)
-         |intros [Hc Hn]; try reflexivity; try discriminate;
-          try (exfalso; match goal with E : map_post vis ?x = (_, (_, Some _)) |- _ =>
-                 specialize (Hc x); rewrite E in Hc; cbn in Hc; (assert (T : Some _ = None) by (apply Hc; cbn; auto)); discriminate end);
-          try (exfalso; match goal with HE : Some _ = None <-> _ |- _ =>
-                 assert (T : Some _ = None) by (apply (proj2 HE); intros c0 Hc0; apply Hc; cbn; auto); discriminate end)]).
+       end; unfold acc0; cbn [join fst snd];
+  repeat match goal with |- context[match ?o with Some _ => _ | None => _ end] => destruct o end; reflexivity.
+Qed.
+
+Lemma last_err_none l : last_err l = None -> forall x, In x l -> x = None.
+Proof.
+  induction l as [|y r IH]; intros H x Hin; [destruct Hin|]. cbn [last_err] in H.
+  destruct (last_err r) eqn:E; [discriminate|]. destruct Hin as [<-|Hin]; [exact H|apply IH; auto].
+Qed.
+
+Lemma last_err_some l x : last_err l = Some x -> In (Some x) l.
+Proof.
+  induction l as [|y r IH]; intros H; [discriminate|]. cbn [last_err] in H.
+  destruct (last_err r) eqn:E; [inversion H; subst; right; apply IH; reflexivity|left; exact H].
+Qed.
+
+Lemma children_rebuild {R : expr -> expr -> Prop} n cs : Forall2 R cs (children n) -> children (rebuild n cs) = cs.
+Proof. intros H. prep_children H n; reflexivity. Qed.
+
+Lemma rebuild_cint n cs : Forall2 (fun c' c => cint c' = cint c) cs (children n) ->
+  cint (rebuild n cs) = cint n /\ dz_node (rebuild n cs) = dz_node n.
+Proof.
+  intros H. prep_children H n; cbn [rebuild cint dz_node]; try (split; reflexivity).
+  - match goal with E : cint _ = cint _ |- _ => rewrite E end. split; reflexivity.
+  - repeat match goal with E : cint _ = cint _ |- _ => rewrite E; clear E end. split; reflexivity.
+Qed.
+
+Section DZ.
+Variable f : visitor.
+Hypothesis Hc : forall n, err_of (f n) = None -> cint (fst (f n)) = cint n.
+Hypothesis Hd : forall n, err_of (f n) = None -> has_dz (fst (f n)) = true -> has_dz n = true.
+Hypothesis He : forall n l, err_of (f n) = Some l -> dz_node n = true.
+
+Lemma dz_walk : forall e,
+  (err_of (map_post f e) = None ->
+     cint (fst (map_post f e)) = cint e /\ (has_dz (fst (map_post f e)) = true -> has_dz e = true)) /\
+  (forall l, err_of (map_post f e) = Some l -> has_dz e = true).
+Proof.
+  apply expr_children_ind. intros e IH.
+  set (cs := map (fun c => fst (map_post f c)) (children e)).
+  pose proof (map_post_err_eq f e) as Eerr. pose proof (map_post_fst f e) as Efst. fold cs in Eerr, Efst.
+  assert (Hchild : forall c, In c (children e) -> has_dz c = true -> has_dz e = true).
+  { intros c Hin Hz. rewrite has_dz_node. apply orb_true_intro. right. apply existsb_exists. eauto. }
+  assert (Hbad : forall l, In (Some l) (map (fun c => err_of (map_post f c)) (children e)) -> has_dz e = true).
+  { intros l Hin. apply in_map_iff in Hin. destruct Hin as (c & Ec & Hc'). apply (Hchild c Hc'). apply (proj2 (IH c Hc') l Ec). }
+  assert (Hok : last_err (map (fun c => err_of (map_post f c)) (children e)) = None ->
+          cint (rebuild e cs) = cint e /\ dz_node (rebuild e cs) = dz_node e /\ (has_dz (rebuild e cs) = true -> has_dz e = true)).
+  { intros Hn.
+    assert (Hall : forall c, In c (children e) -> err_of (map_post f c) = None).
+    { intros c Hin. apply (last_err_none _ Hn). apply in_map_iff. eauto. }
+    assert (F2 : Forall2 (fun c' c => cint c' = cint c) cs (children e)).
+    { unfold cs. clear -IH Hall. induction (children e) as [|c r IHr]; cbn [map]; constructor.
+      - apply (proj1 (IH c (or_introl eq_refl)) (Hall c (or_introl eq_refl))).
+      - apply IHr; intros; [apply IH|apply Hall]; right; assumption. }
+    destruct (rebuild_cint e cs F2) as [C1 C2]. split; [exact C1|split; [exact C2|]].
+    intros Hz. rewrite has_dz_node in Hz. rewrite (children_rebuild e cs F2) in Hz. rewrite has_dz_node.
+    apply orb_prop in Hz. destruct Hz as [Hz|Hz]; [rewrite <- C2, Hz; reflexivity|].
+    apply orb_true_intro. right. apply existsb_exists in Hz. destruct Hz as (c' & Hin' & Hz').
+    unfold cs in Hin'. apply in_map_iff in Hin'. destruct Hin' as (c & <- & Hin). apply existsb_exists. exists c. split; [exact Hin|].
+    apply (proj1 (IH c Hin) (Hall c Hin)). exact Hz'. }
+  split.
+  - intros Hn. rewrite Eerr in Hn. destruct (err_of (f (rebuild e cs))) eqn:Ef; [discriminate|].
+    destruct (Hok Hn) as (C1 & C2 & C3). rewrite Efst. split; [rewrite (Hc _ Ef); exact C1|].
+    intros Hz. apply C3. apply (Hd _ Ef Hz).
+  - intros l Hl. rewrite Eerr in Hl. destruct (err_of (f (rebuild e cs))) eqn:Ef.
+    + destruct (last_err (map (fun c => err_of (map_post f c)) (children e))) eqn:El.
+      * apply (Hbad l1). apply last_err_some. exact El.
+      * destruct (Hok eq_refl) as (_ & C2 & _). rewrite has_dz_node, <- C2, (He _ _ Ef). reflexivity.
+    + apply (Hbad l). apply last_err_some. exact Hl.
+Qed.
+End DZ.
+
+Lemma iv_wrap z : iv (wrap KInt z) = wrap KInt z.
+Proof. unfold iv. apply wrap_idem. reflexivity. Qed.
+
+Lemma fold_Hc pow n : err_of (fold_v pow n) = None -> cint (fst (fold_v pow n)) = cint n.
+Proof.
+  unfold err_of. destruct n; try reflexivity; cbn [fold_v].
+  - destruct (int_lit n) as [[ai z]|] eqn:L; [apply int_lit_inv in L; subst|reflexivity].
+    destruct op; try reflexivity; intros _; cbn [fst patch_ty set_ann cint akind]; rewrite ?iv_wrap, ?iv_idem; reflexivity.
+  - destruct (int_lit n1) as [[a1 x]|] eqn:L1; [destruct (int_lit n2) as [[a2 y]|] eqn:L2|].
+    + apply int_lit_inv in L1. apply int_lit_inv in L2. subst.
+      destruct op; try reflexivity; cbn [fold_int_bin].
+      * intros _. cbn [fst patch_ty set_ann cint akind]. rewrite iv_wrap. reflexivity.
+      * intros _. cbn [fst patch_ty set_ann cint akind]. rewrite iv_wrap. reflexivity.
+      * intros _. cbn [fst patch_ty set_ann cint akind]. rewrite iv_wrap. reflexivity.
+      * destruct (is_float_kind (akind a1) || is_float_kind (akind a2)) eqn:F; [reflexivity|].
+        destruct (iv y =? 0) eqn:Z0; [discriminate|]. intros _. cbn [fst patch_ty set_ann cint akind]. rewrite F, Z0, iv_wrap. reflexivity.
+      * destruct (iv y =? 0) eqn:Z0; [discriminate|]. intros _. cbn [fst patch set_ann ann_of cint akind]. rewrite Z0, iv_wrap. reflexivity.
+    + intros _. destruct op; try reflexivity. destruct (str_lit n1) eqn:S1; [|reflexivity].
+      apply int_lit_inv in L1. subst. discriminate.
+    + intros _. destruct op; try reflexivity. destruct (str_lit n1) as [s1|] eqn:S1; [|reflexivity].
+      destruct (str_lit n2) as [s2|] eqn:S2; [|reflexivity].
+      apply str_lit_inv in S1. destruct S1 as (a1 & ->). reflexivity.
+  - intros _. unfold fold_array. destruct (is_nil_list es); [reflexivity|].
+    destruct (all_ints es); [reflexivity|]. destruct (all_strs es); reflexivity.
+Qed.
+
+Lemma has_dz_leaf e : children e = [] -> dz_node e = false -> has_dz e = false.
+Proof. intros C D. rewrite has_dz_node, C, D. reflexivity. Qed.
+
+Lemma fold_Hd pow n : err_of (fold_v pow n) = None -> has_dz (fst (fold_v pow n)) = true -> has_dz n = true.
+Proof.
+  intros _. destruct n; try (intros H; exact H); cbn [fold_v].
+  - destruct (int_lit n) as [[ai z]|]; [|intros H; exact H]. destruct op; try (intros H; exact H); discriminate.
+  - destruct (int_lit n1) as [[a1 x]|]; [destruct (int_lit n2) as [[a2 y]|]|].
+    + destruct op; try (intros H; exact H); cbn [fold_int_bin]; try discriminate.
+      * destruct (is_float_kind (akind a1) || is_float_kind (akind a2)); [intros H; exact H|].
+        destruct (iv y =? 0); [intros H; exact H|discriminate].
+      * destruct (iv y =? 0); [intros H; exact H|discriminate].
+    + destruct op; try (intros H; exact H). destruct (str_lit n1); [|intros H; exact H].
+      destruct (str_lit n2); [discriminate|intros H; exact H].
+    + destruct op; try (intros H; exact H). destruct (str_lit n1); [|intros H; exact H].
+      destruct (str_lit n2); [discriminate|intros H; exact H].
+  - unfold fold_array. destruct (is_nil_list es); [intros H; exact H|].
+    destruct (all_ints es); [discriminate|]. destruct (all_strs es); [discriminate|intros H; exact H].
+Qed.
+
+Lemma fold_He pow n l : err_of (fold_v pow n) = Some l -> dz_node n = true.
+Proof.
+  unfold err_of. destruct n; try discriminate; cbn [fold_v].
+  - destruct (int_lit n) as [[ai z]|]; [|discriminate]. destruct op; discriminate.
+  - destruct (int_lit n1) as [[a1 x]|] eqn:L1; [destruct (int_lit n2) as [[a2 y]|] eqn:L2|].
+    + apply int_lit_inv in L1. apply int_lit_inv in L2. subst.
+      destruct op; try discriminate; cbn [fold_int_bin dz_node cint].
+      * destruct (is_float_kind (akind a1) || is_float_kind (akind a2)); [discriminate|].
+        destruct (iv y =? 0); [reflexivity|discriminate].
+      * destruct (iv y =? 0); [reflexivity|discriminate].
+    + destruct op; try discriminate. destruct (str_lit n1); [|discriminate]. destruct (str_lit n2); discriminate.
+    + destruct op; try discriminate. destruct (str_lit n1); [|discriminate]. destruct (str_lit n2); discriminate.
+  - unfold fold_array. destruct (is_nil_list es); [discriminate|].
+    destruct (all_ints es); [discriminate|]. destruct (all_strs es); discriminate.
+Qed.
+
+Lemma in_array_Hc n : cint (fst (in_array_v n)) = cint n.
+Proof.
+  destruct n; try reflexivity. cbn [in_array_v]. destruct (arr_lit n2) as [es|] eqn:A; [|reflexivity].
+  apply arr_lit_inv in A. destruct A as (aa & ->).
+  destruct (is_in_op op && negb (is_nil_list es)) eqn:C; [|reflexivity]. apply andb_prop in C. destruct C as [Cop _].
+  destruct (kind_of n1) as [| |k| | | | | | | |]; try reflexivity.
+  - destruct k; try reflexivity. destruct (all_ints es); [|reflexivity]. cbn [fst patch set_ann cint].
+    destruct (cint n1) as [[k1 x]|]; destruct op; try discriminate; reflexivity.
+  - destruct (all_strs es); [|reflexivity]. cbn [fst patch set_ann cint].
+    destruct (cint n1) as [[k1 x]|]; destruct op; try discriminate; reflexivity.
+Qed.
+
+Lemma in_array_err n : err_of (in_array_v n) = None.
+Proof.
+  unfold err_of. destruct n; try reflexivity. cbn [in_array_v]. destruct (arr_lit n2); [|reflexivity].
+  destruct (is_in_op op && negb (is_nil_list l)); [|reflexivity].
+  destruct (kind_of n1) as [| |k| | | | | | | |]; try reflexivity.
+  - destruct k; try reflexivity. destruct (all_ints l); reflexivity.
+  - destruct (all_strs l); reflexivity.
+Qed.
+
+Lemma in_array_Hd n : has_dz (fst (in_array_v n)) = true -> has_dz n = true.
+Proof.
+  destruct n; try (intros H; exact H). cbn [in_array_v]. destruct (arr_lit n2) as [es|] eqn:A; [|intros H; exact H].
+  destruct (is_in_op op && negb (is_nil_list es)) eqn:C; [|intros H; exact H]. apply andb_prop in C. destruct C as [Cop _].
+  assert (G : has_dz (EBinary a op n1 (EConst ann0 (int_set [])) ) = true -> True) by auto.
+  assert (K : forall v, has_dz (EBinary a op n1 (EConst ann0 v)) = true -> has_dz (EBinary a op n1 n2) = true).
+  { intros v H. rewrite has_dz_node in H. cbn [children existsb] in H. rewrite has_dz_node. cbn [children existsb].
+    assert (D : dz_node (EBinary a op n1 (EConst ann0 v)) = false) by (destruct op; try discriminate; reflexivity).
+    rewrite D in H. cbn [orb] in H. apply orb_prop in H. destruct H as [H|H].
+    - rewrite H. rewrite orb_true_r. cbn. destruct (dz_node (EBinary a op n1 n2)); reflexivity.
+    - cbn in H. discriminate. }
+  destruct (kind_of n1) as [| |k| | | | | | | |]; try (intros H; exact H).
+  - destruct k; try (intros H; exact H). destruct (all_ints es); [|intros H; exact H]. cbn [fst patch set_ann ann_of]. apply K.
+  - destruct (all_strs es); [|intros H; exact H]. cbn [fst patch set_ann ann_of]. apply K.
+Qed.
+
+Lemma last_err_all_none l : (forall x, In x l -> x = None) -> last_err l = None.
+Proof.
+  induction l as [|y r IH]; intros H; [reflexivity|]. cbn [last_err]. rewrite IH by (intros; apply H; right; assumption).
+  apply H. left; reflexivity.
+Qed.
+
+Lemma in_array_no_err : forall e, err_of (map_post in_array_v e) = None.
+Proof.
+  apply expr_children_ind. intros e IH. rewrite map_post_err_eq, in_array_err. apply last_err_all_none.
+  intros x Hin. apply in_map_iff in Hin. destruct Hin as (c & <- & Hc). apply IH; exact Hc.
+Qed.
+
+Lemma in_array_dz e : has_dz (pass_in_array e) = true -> has_dz e = true.
+Proof.
+  unfold pass_in_array.
+  destruct (dz_walk in_array_v (fun n _ => in_array_Hc n) (fun n _ => in_array_Hd n)
+              (fun n l H => ltac:(rewrite in_array_err in H; discriminate)) e) as [H1 _].
+  apply (H1 (in_array_no_err e)).
+Qed.
+
+Lemma iter_fold_dz pow n : forall e l, iter_pass (fold_v pow) n e = OFail l -> has_dz e = true.
+Proof.
+  induction n as [|n IH]; intros e l H; cbn [iter_pass] in H; [discriminate|].
+  destruct (dz_walk (fold_v pow) (fold_Hc pow) (fold_Hd pow) (fold_He pow) e) as [H1 H2].
+  unfold err_of in *. destruct (map_post (fold_v pow) e) as [e' [ap er]]. cbn [fst snd] in *.
+  destruct er as [l'|]; [apply (H2 l' eq_refl)|]. destruct ap; [|discriminate].
+  apply (proj2 (H1 eq_refl)). apply (IH e' l H).
+Qed.
+
+(* a ConstExpr call that fails (or that reflect refuses) when the optimizer makes it *)
+Definition cx_fails (fe : fenv) (env : value) (cn : list string) : Prop :=
+  exists name vs er, is_const_fn cn name = true /\ const_call fe env name vs = Fail er.
+
+Lemma cx_err fe env cn n l : err_of (const_expr_v fe env cn n) = Some l -> cx_fails fe env cn.
+Proof.
+  unfold err_of. destruct n; try discriminate. cbn [const_expr_v]. destruct (is_const_fn cn name) eqn:C; [|discriminate].
+  destruct (const_args args) as [vs|]; [|discriminate]. destruct (const_call fe env name vs) as [v|er] eqn:E; [discriminate|].
+  intros _. exists name, vs, er. auto.
+Qed.
+
+Lemma cx_walk_err fe env cn : forall e l, err_of (map_post (const_expr_v fe env cn) e) = Some l -> cx_fails fe env cn.
+Proof.
+  apply (expr_children_ind (fun e => forall l, err_of (map_post (const_expr_v fe env cn) e) = Some l -> cx_fails fe env cn)).
+  intros e IH l H. rewrite map_post_err_eq in H.
+  destruct (err_of (const_expr_v fe env cn _)) eqn:E; [eapply cx_err; exact E|].
+  apply last_err_some in H. apply in_map_iff in H. destruct H as (c & Ec & Hc). eapply IH; eauto.
+Qed.
+
+Lemma iter_cx_fails fe env cn n : forall e l, iter_pass (const_expr_v fe env cn) n e = OFail l -> cx_fails fe env cn.
+Proof.
+  induction n as [|n IH]; intros e l H; cbn [iter_pass] in H; [discriminate|].
+  pose proof (cx_walk_err fe env cn e) as W. unfold err_of in W.
+  destruct (map_post (const_expr_v fe env cn) e) as [e' [ap er]]. cbn [snd] in W.
+  destruct er as [l'|]; [apply (W l' eq_refl)|]. destruct ap; [eapply IH; exact H|discriminate].
+Qed.
+
+(* the only expressions the optimizer rejects: a constant integer division / modulo by zero, or a
+   ConstExpr call that fails at compile time *)
+Theorem C02_only_div_zero_rejected : forall fe env cn e l,
+  optimize fe env cn e = OFail l -> has_dz e = true \/ cx_fails fe env cn.
+Proof.
+  intros fe env cn e l H. unfold optimize, before_const_range, before_in_range in H.
+  destruct (pass_fold fe (pass_in_array e)) as [e2|l2] eqn:P2; cbn [obind] in H.
+  - destruct (pass_const_expr fe env cn e2) as [e3|l3] eqn:P3; cbn [obind] in H; [discriminate|].
+    right. unfold pass_const_expr in P3. destruct cn; [discriminate|]. eapply iter_cx_fails; exact P3.
+  - left. apply in_array_dz. unfold pass_fold in P2. eapply iter_fold_dz; exact P2.
+Qed.
+
+(* ... and such a call fails at run time as well: the failure only moved to compile time *)
+Lemma const_call_failure_is_runtime_failure : forall fe cfg env a name args vs er ctx s,
+  const_args args = Some vs -> forallb lit_child_ok args = true -> fetch_fn fe env name = Ok name ->
+  const_call fe env name vs = Fail er ->
+  exists er' s', eval fe cfg env ctx (EFunction a name args false) s = Stop er' (aloc a) s'.
+Proof.
+  intros fe cfg env a name args vs er ctx s A L F C.
+  rewrite ev_function, (ev_list_vals fe cfg env ctx _ _ (const_args_vals fe cfg env _ _ A L)), F. cbn [lift].
+  unfold const_call in C. unfold do_call. destruct (fn_sig fe name) as [sg|]; [|eauto].
+  destruct (args_ok (s_ins sg) (s_variadic sg) vs); [|eauto].
+  destruct (fn_run fe name env vs); [|eauto]. destruct (s_nout sg =? 0); [eauto|discriminate].
+Qed.
+
+(* ConstExpr: marking functions never changes a result (C02_transparent_partial with cn <> []: equal
+   values, the marked calls vanish from the run-time call log); an expression it makes the optimizer
+   reject contains a call that fails anyway. *)
+Theorem C02_constexpr_pure : forall fe cfg env cn e,
+  side_conditions fe cfg env cn e ->
+  (forall e', optimize fe env cn e = OOk e' ->
+     forall ctx s, rsim vsim cn (eval fe cfg env ctx e' s) (eval fe cfg env ctx e s)) /\
+  (forall l, optimize fe env cn e = OFail l -> has_dz e = true \/ cx_fails fe env cn).
+Proof.
+  intros fe cfg env cn e SC. split.
+  - intros e' H. apply C02_transparent_partial; assumption.
+  - intros l H. eapply C02_only_div_zero_rejected; exact H.
 Qed.
